@@ -31,17 +31,17 @@ struct StaticChunkMapper {
   IntegerT rangeEnd;
 
   std::pair<IntegerT, IntegerT> operator()(size_type idx) const {
-    IntegerT start;
+    // The offset from rangeStart can exceed IntegerT's positive range (e.g. an int range that spans
+    // more than INT_MAX indices): compute it in the 64-bit size type rather than in IntegerT, where
+    // the multiplication would be a signed overflow.
+    size_type offset;
     if (idx < transIdx) {
-      IntegerT i = static_cast<IntegerT>(idx);
-      start = static_cast<IntegerT>(rangeStart + static_cast<IntegerT>(i * chunkSize));
+      offset = idx * static_cast<size_type>(chunkSize);
     } else {
-      IntegerT ti = static_cast<IntegerT>(transIdx);
-      IntegerT ri = static_cast<IntegerT>(idx - transIdx);
-      start = static_cast<IntegerT>(
-          rangeStart + static_cast<IntegerT>(ti * chunkSize) +
-          static_cast<IntegerT>(ri * smallChunk));
+      offset = transIdx * static_cast<size_type>(chunkSize) +
+          (idx - transIdx) * static_cast<size_type>(smallChunk);
     }
+    IntegerT start = static_cast<IntegerT>(static_cast<size_type>(rangeStart) + offset);
     IntegerT end;
     if (idx + 1 == numThreads) {
       end = rangeEnd;
